@@ -2,7 +2,8 @@
 (* Use (C) for C07: observations of the REAL legacy / modular tokenizers, judged against TokLegacy.tla.
 
    record t = "rt"  (one maze x one legacy tokenizer configuration)
-     mode, mgs (<<>> | <<n>>), maze (raw fields), resL/tokL = outcome and tokens of maze.as_tokens(legacy),
+     mode, mgs (<<>> | <<n>>), maze (raw fields), lax ("" | reason), argmod (vias whose list argument was modified),
+     mazemod (the maze differs from its value before the calls), resL/tokL = outcome and tokens of maze.as_tokens(legacy),
      resM/tokM = the same for MazeTokenizerModular.from_legacy(...), rp = the four re-parses
      [via \in {"legacy","modular"}, inp \in {"list","str"}, res, maze]  (str = the tokens joined by one blank)
    record t = "ds"  (MazeDataset.as_tokens)
@@ -16,7 +17,11 @@
      dataset_raises, dataset_per_maze_raises, dataset_join_option, dataset_limit, dataset_item_differs
    Layer M (conformance of the real token streams to the TokLegacy grammar; never fails the check):
      M:legacy_not_emission, M:modular_not_emission, M:spec_parse_differs, M:dataset_item_not_emission,
-     M:outside_premise, M:record_incomplete, M:harness_split *)
+     M:outside_premise, M:record_incomplete, M:harness_split,
+     M:oblong_rt_<via>_<inp>_<field>  (round trip of an oblong maze: itself or padded to the square of side max(R, C)),
+     M:from_tokens_modified_its_argument, M:tokenization_modified_the_maze, M:<lax>:<clause> (r.lax # "")
+   Oblong mazes: the emission clauses (as_tokens raises, equiv_outside_adj, equiv_adj_entries) and the dataset clauses stay Layer P - the second
+   sentence of the statement does not go through from_tokens. *)
 EXTENDS TokLegacy, Json, IOUtils
 Log == ndJsonDeserialize(IOEnv.VERIF_LOG)
 
@@ -31,6 +36,18 @@ RpClauses(m, x) ==
   LET tag == "rt_" \o x.via \o "_" \o x.inp IN
   IF x.res # "ok" THEN {tag \o "_raises"} ELSE FieldDiff(tag, m, x.maze)
 
+\* Oblong maze (R # C): from_tokens builds ONE-side square grids (docstring "only tested for square mazes"), so the
+\* round trip lies outside the statement (TokLegacy!PadSq, TokLegacy_sqinfer.cfg) and is judged in Layer M only:
+\* the re-parse must be the maze itself or the maze on the square grid of side max(R, C).
+RpClausesOblong(m, x) ==
+  LET tag == "M:oblong_rt_" \o x.via \o "_" \o x.inp IN
+  IF x.res # "ok" THEN {tag \o "_raises"}
+  ELSE IF FieldDiff(tag, m, x.maze) = {} THEN {} ELSE FieldDiff(tag, PadSq(m), x.maze)
+
+\* r.lax # "": an input representation beyond the declared types (e.g. a non-boolean connection array): every clause
+\* becomes Layer M, named "M:<lax>:<clause>"
+Soft(r, S) == IF r.lax = "" THEN S ELSE {"M:" \o r.lax \o ":" \o c : c \in S}
+
 RtClauses(r) ==
   LET ck == ModeCoord(r.mode)  m == r.maze  E == EdgesOf(r.maze)
       okL == r.resL = "ok"  okM == r.resM = "ok"
@@ -38,12 +55,12 @@ RtClauses(r) ==
               \cup (IF okM THEN {<<"modular", "list">>, <<"modular", "str">>} ELSE {})
   IN
   IF ~(r.mode \in Modes /\ WellShaped(m.R, m.C, m.conn) /\ Premise(m)) THEN {"M:outside_premise"}
-  ELSE
+  ELSE Soft(r,
     (IF okL THEN {} ELSE {"legacy_as_tokens_raises"})
     \cup (IF okM THEN {} ELSE {"modular_as_tokens_raises"})
     \cup (IF {<<r.rp[k].via, r.rp[k].inp>> : k \in 1..Len(r.rp)} = want /\ Len(r.rp) = Cardinality(want)
           THEN {} ELSE {"M:record_incomplete"})
-    \cup UNION {RpClauses(m, r.rp[k]) : k \in 1..Len(r.rp)}
+    \cup UNION {IF m.R = m.C THEN RpClauses(m, r.rp[k]) ELSE RpClausesOblong(m, r.rp[k]) : k \in 1..Len(r.rp)}
     \cup (IF ~(okL /\ okM) THEN {}
           ELSE IF ~EquivOutside(r.tokL, r.tokM) THEN {"equiv_outside_adj"}
           ELSE IF ~EquivInside(ck, r.tokL, r.tokM) THEN {"equiv_adj_entries"} ELSE {})
@@ -54,6 +71,10 @@ RtClauses(r) ==
                      THEN {} ELSE {"M:spec_parse_differs"}))
     \cup (IF ~okM THEN {}
           ELSE IF InEmitRd(Read(ck, r.tokM), m, E) THEN {} ELSE {"M:modular_not_emission"})
+    \* side effects on the caller's objects (beyond the statement, Layer M): the token list handed to from_tokens and
+    \* the maze handed to as_tokens are compared with their state before the calls by the harness
+    \cup (IF r.argmod = <<>> THEN {} ELSE {"M:from_tokens_modified_its_argument"})
+    \cup (IF r.mazemod THEN {"M:tokenization_modified_the_maze"} ELSE {}))
 
 DsClauses(r) ==
   LET ck == ModeCoord(r.mode)  k == Take(r.n, r.limit) IN
